@@ -7,9 +7,11 @@ import BipVerif.Driver.Bip38
 import BipVerif.Driver.Monero
 import BipVerif.Driver.Substrate
 import BipVerif.Driver.Electrum
+import BipVerif.Driver.Cardano
+import BipVerif.Driver.Ecc
 open BipVerif.Driver
 
-def allOps : List (String × Op) := codecOps ++ bip32Ops ++ mnemonicOps ++ addrOps ++ bip44Ops ++ bip38Ops ++ moneroOps ++ electrumOps
+def allOps : List (String × Op) := codecOps ++ bip32Ops ++ mnemonicOps ++ addrOps ++ bip44Ops ++ bip38Ops ++ moneroOps ++ electrumOps ++ cardanoOps ++ eccOps
 
 def handle (line : String) : String :=
   -- request [ " | " oracle entries ]
